@@ -153,6 +153,21 @@ fn parse_both(pty: &str, text: &str, f: &str) -> (Value, Value) {
     }
 }
 
+/// The same parse through OWNED items (`StrftimeItems::parse_to_owned` + `format::parse` + the `Parsed` resolution that
+/// `parse_from_str` of the type uses): another route to the same behaviour, which must agree.
+fn parse_owned(pty: &str, text: &str, f: &str) -> Value {
+    use chrono::format::{Parsed, StrftimeItems};
+    let items = match StrftimeItems::new(f).parse_to_owned() { Ok(i) => i, Err(e) => return err_kind(e) };
+    let mut p = Parsed::new();
+    if let Err(e) = chrono::format::parse(&mut p, text, items.iter()) { return err_kind(e); }
+    match pty {
+        "date" => match p.to_naive_date() { Ok(d) => json!({"ok": {"n": dn(d)}}), Err(e) => err_kind(e) },
+        "time" => match p.to_naive_time() { Ok(t) => json!({"ok": tod(t)}), Err(e) => err_kind(e) },
+        "ndt" => match p.to_naive_datetime_with_offset(0) { Ok(x) => json!({"ok": ndt(x)}), Err(e) => err_kind(e) },
+        _ => match p.to_datetime() { Ok(z) => { let mut v = ndt(z.naive_utc()); v["off"] = json!(z.offset().local_minus_utc()); json!({"ok": v}) } Err(e) => err_kind(e) },
+    }
+}
+
 fn swap_case(s: &str, mode: &str) -> String {
     match mode {
         "upper" => s.to_ascii_uppercase(),
@@ -205,13 +220,13 @@ pub fn rt_event(rng: &mut Rng, v: &Val, pty0: &str, fw: &str, fr: &str, with_per
             let ptys: &[&str] = match pty0 { "dt" => &["dt", "ndt", "date", "time"], "ndt" => &["ndt", "date", "time"], "date" => &["date"], _ => &["time"] };
             for pty in ptys {
                 let (r, rem) = parse_both(pty, t, fr);
-                parsed.push(json!({"pty": pty, "r": r, "rem": rem}));
+                parsed.push(json!({"pty": pty, "r": r, "rem": rem, "owned": parse_owned(pty, t, fr)}));
             }
             if with_perts {
                 for (m, w) in [(mode, ""), ("asis", ws.as_str()), (mode, ws.as_str())] {
                     if let Some(pt) = perturb(v, fw, m, w) {
                         let (r, _) = parse_both(pty0, &pt, fr);
-                        perts.push(json!({"mode": m, "ws": cps(w), "text": cps(&pt), "r": r}));
+                        perts.push(json!({"mode": m, "ws": cps(w), "text": cps(&pt), "r": r, "owned": parse_owned(pty0, &pt, fr)}));
                     }
                 }
             }
@@ -286,6 +301,11 @@ pub fn run(ctx: &Ctx) -> Value {
                 push!("ndt", f.clone(), f.clone(), &mut fmts);
                 for o in ["", " %z", "%:z", " %:z"] { let z = format!("{}{}", f, o); push!("dt", z.clone(), z, &mut fmts); }
             }
+        }
+        // a timestamp printed next to a complete civil value is redundant: the civil fields decide and the timestamp is cross-checked
+        // (leap seconds and every offset sign included)
+        for f in ["%Y-%m-%dT%H:%M:%S%.f%:z @%s", "%s %Y-%m-%d %H:%M:%S %z", "%+ %s", "%s = %G-W%V-%u %I:%M:%S%.3f %p %:z"] {
+            for _ in 0..3 { push!("dt", f.to_string(), f.to_string(), &mut fmts); }
         }
         for f in ["%c", "%+", "%c %z", "%+ %A", "%A %+", "%c%t%:z"] {
             if !f.contains('z') && !f.contains('+') { push!("ndt", f.to_string(), f.to_string(), &mut fmts); }
